@@ -153,7 +153,10 @@ partial def go (s : State) (acc : String) (ts : Toks) : String :=
       | .error e => showAbort e
       | .ok s' => go s' (acc ++ snapshot s') rest'
 
-def stepLine (ts : Toks) : String := go State.init "H" ts
+def stepLine (ts : Toks) : String :=
+  match ts with
+  | "SLOTS" :: n :: rest => go (State.initN (n.toNat?.getD 8) 4) "H" rest   -- boundary stream: more container slots
+  | _ => go State.init "H" ts
 
 end FeatModel.DrvC20
 
